@@ -12,7 +12,7 @@ PREP = {"e2e.C01.roundtrip": "w.", "e2e.C07.corrupt": "w."}
 
 # ops whose implementation observation carries extra statistics after the first word (e.g. "same ok",
 # "same conferr"): only the first word is compared with the model's answer
-FIRST_WORD_FNS = {"c08.twin", "c08.known", "c15.versions", "c15.known", "c02.closure", "c02.known", "c19.origin", "c09.doc", "c09.known"}
+FIRST_WORD_FNS = {"c10.schema", "c08.twin", "c08.known", "c15.versions", "c15.known", "c02.closure", "c02.known", "c19.origin", "c09.doc", "c09.known"}
 
 # property module -> (modules the script imports, script run with `lake env lean --run`): prints `<name>=true|false`
 PRECHECK = {
@@ -72,8 +72,6 @@ KNOWN_CLASSES = {
     "c02_later_element_column_missing": _c02_witness("later-element-column-missing"),
     "c02_keyed_list_struct_key": _c02_witness("keyed-list-struct-key"),
     "d16_last_first_elem": _d16_last_first_elem,
-    # D35: blank data rows are parsed like any row: with present / sequence / fixed / size properties an appended blank row changes the outcome
-    "padrows_with_row_props": _padrows_with_row_props,
 }
 
 PROPS = {
@@ -241,10 +239,11 @@ PROPS = {
     },
     "C10": {
         "lean_modules": ["TableauVerif.Props.C10"],
-        "oracles": ["tp.pair"],
+        "oracles": ["tp.pair", "c10.schema"],
         "streams": [
             ("corr.confgen.layoutPairs", 6000, 200000),
             ("corr.confgen.tableParse", 6000, 200000),
+            ("e2e.C10.schema", 200, 8000),
         ],
         "assumptions": [
             "modelled: the confgen table parser (Parse, parseMessage, all map/list layouts, keyed lists, structs, scalars, presence/range, E0003, CellDebugKV) for int32/uint32/int64/uint64/bool/string; enums, floats, well-known types, unions, refer, default, adjacent-key population are not modelled (not generated)",
